@@ -11,7 +11,7 @@
 //	get <name>                     obs: none | some:<integer value of the float64>
 //	conc <g> <item>,<item>,…       item = <i|c|u|d>*<reps>*<n>*<name>: the multiset of calls
 //	                               (Increment / Count n / Up / Down, each <reps> times) is dealt
-//	                               round-robin to <g> goroutines released together; obs: done
+//	                               round-robin to <g> goroutines that start calling together (spin barrier); obs: done
 //
 // Gauge and Store take float64 in Go; the generator only produces integers of magnitude ≤ 2^53,
 // which float64 represents exactly, so values can be compared as integers.
@@ -21,9 +21,11 @@ import (
 	"fmt"
 	"math"
 	"math/big"
+	"runtime"
 	"strconv"
 	"strings"
 	"sync"
+	"sync/atomic"
 
 	kit "github.com/honeycombio/refinery/internal/verifkit"
 	"github.com/honeycombio/refinery/metrics"
@@ -321,19 +323,23 @@ func (r *runner) Do(op []string) (string, bool) {
 				calls = append(calls, call)
 			}
 		}
-		start := make(chan struct{})
+		// spin barrier: every goroutine is running before the first call is made, so the calls
+		// of different goroutines really overlap
+		var ready atomic.Int32
 		var wg sync.WaitGroup
 		for w := 0; w < g; w++ {
 			wg.Add(1)
 			go func(w int) {
 				defer wg.Done()
-				<-start
+				ready.Add(1)
+				for ready.Load() < int32(g) {
+					runtime.Gosched()
+				}
 				for j := w; j < len(calls); j += g {
 					calls[j]()
 				}
 			}(w)
 		}
-		close(start)
 		wg.Wait()
 		return "done", true
 	}
